@@ -3,6 +3,7 @@
 package native
 
 import (
+	"errors"
 	"io"
 	"net"
 	"time"
@@ -13,12 +14,13 @@ import (
 )
 
 var verifHarnesses = map[string]func(a []int){
-	"VerifSendUpdate":        func(a []int) { VerifSendUpdate(a[0], a[1]) },
+	"VerifSendUpdate":         func(a []int) { VerifSendUpdate(a[0], a[1]) },
 	"VerifSendUpdateManyComm": func(a []int) { VerifSendUpdateManyComm(a[0]) },
-	"VerifSendWithdraw":      func(a []int) { VerifSendWithdraw(a[0]) },
-	"VerifSendKeepalive":     func(a []int) { VerifSendKeepalive() },
-	"VerifSendOpen":          func(a []int) { VerifSendOpen() },
-	"VerifReadOpenArbitrary": func(a []int) { VerifReadOpenArbitrary(a[0]) },
+	"VerifSendWithdraw":       func(a []int) { VerifSendWithdraw(a[0]) },
+	"VerifSendAfterFailure":   func(a []int) { VerifSendAfterFailure(a[0]) },
+	"VerifSendKeepalive":      func(a []int) { VerifSendKeepalive() },
+	"VerifSendOpen":           func(a []int) { VerifSendOpen() },
+	"VerifReadOpenArbitrary":  func(a []int) { VerifReadOpenArbitrary(a[0]) },
 	"VerifReadOpenWellFormed": func(a []int) { VerifReadOpenWellFormed(a[0], a[1]) },
 }
 
@@ -227,6 +229,75 @@ func VerifSendUpdateManyComm(ncomm int) {
 	vr.Reach("many communities decoded")
 }
 
+// vhCheckWithdraw reads a recorded withdraw message back with the independent decoder.
+func vhCheckWithdraw(w *vhRecorder, pfxs []*net.IPNet, lens []int) {
+	b := w.b
+	vr.Assert(vhHeader(b, 2), "withdraw header malformed")
+	vr.Assert(len(b) >= 23, "withdraw shorter than fixed part")
+	wl := int(vhU16(b[19:21]))
+	vr.Assert(21+wl+2 == len(b), "withdrawn-routes length inconsistent with message length")
+	pos := 21
+	for i := range pfxs {
+		next, ok := vhNLRI(b[:21+wl], pos, pfxs[i], lens[i])
+		vr.Assert(ok, "withdrawn route does not decode to the intended prefix")
+		pos = next
+	}
+	vr.Assert(pos == 21+wl, "withdrawn routes do not fill their block")
+	vr.Assert(vhU16(b[pos:pos+2]) == 0, "withdraw carries path attributes")
+	vr.Assert(w.writes == 1, "message not written in one piece")
+}
+
+// vhBrokenPipe accepts the first k bytes of a write and then fails (connection reset in the middle of a
+// message).
+type vhBrokenPipe struct{ k int }
+
+func (p *vhBrokenPipe) Write(b []byte) (int, error) {
+	if len(b) <= p.k {
+		p.k -= len(b)
+		return len(b), nil
+	}
+	k := p.k
+	p.k = 0
+	return k, errors.New("connection reset by peer")
+}
+
+// VerifSendAfterFailure (C16, histories): a message (withdraw, update or keepalive) fails in the middle of
+// its write - the connection accepted k bytes - and the next withdraw / update / keepalive goes to a
+// healthy connection: it is well formed and carries exactly its own content, nothing of the failed message.
+func VerifSendAfterFailure(k int) {
+	pa := &net.IPNet{IP: net.IP{10, 20, 30, 0}, Mask: net.CIDRMask(24, 32)} // what the failed message carries does not matter
+	bad := &vhBrokenPipe{k: k}
+	var err error
+	switch vr.Choose(3) {
+	case 0:
+		err = sendWithdraw(bad, []*net.IPNet{pa})
+	case 1:
+		err = sendUpdate(bad, vr.Uint32(), true, true, vhSymIP4(), &bgp.Advertisement{Prefix: pa, LocalPref: 7})
+	case 2:
+		err = sendKeepalive(bad)
+	}
+	vr.Assert(vr.Implies(k < 19, err != nil), "a write the connection refused was reported as sent")
+	pb, ob := vhPrefix()
+	switch vr.Choose(3) {
+	case 0:
+		w := &vhRecorder{}
+		vr.Assert(sendWithdraw(w, []*net.IPNet{pb}) == nil, "sendWithdraw failed on a healthy connection")
+		vhCheckWithdraw(w, []*net.IPNet{pb}, []int{ob})
+	case 1:
+		w := &vhRecorder{}
+		vr.Assert(sendUpdate(w, vr.Uint32(), true, true, vhSymIP4(), &bgp.Advertisement{Prefix: pb, LocalPref: 7}) == nil, "sendUpdate failed on a healthy connection")
+		vr.Assert(vhHeader(w.b, 2), "UPDATE header malformed after an earlier failed write")
+		attrLen := int(vhU16(w.b[21:23]))
+		next, nok := vhNLRI(w.b, 23+attrLen, pb, ob)
+		vr.Assert(nok && next == len(w.b), "UPDATE after an earlier failed write does not carry its prefix")
+	case 2:
+		w := &vhRecorder{}
+		vr.Assert(sendKeepalive(w) == nil, "sendKeepalive failed on a healthy connection")
+		vr.Assert(vhHeader(w.b, 4) && len(w.b) == 19, "KEEPALIVE malformed after an earlier failed write")
+	}
+	vr.Reach("message after a failed write decoded")
+}
+
 // VerifSendWithdraw: withdraw message with n prefixes.
 func VerifSendWithdraw(n int) {
 	var pfxs []*net.IPNet
@@ -239,20 +310,7 @@ func VerifSendWithdraw(n int) {
 	w := &vhRecorder{}
 	err := sendWithdraw(w, pfxs)
 	vr.Assert(err == nil, "sendWithdraw failed")
-	b := w.b
-	vr.Assert(vhHeader(b, 2), "withdraw header malformed")
-	vr.Assert(len(b) >= 23, "withdraw shorter than fixed part")
-	wl := int(vhU16(b[19:21]))
-	vr.Assert(21+wl+2 == len(b), "withdrawn-routes length inconsistent with message length")
-	pos := 21
-	for i := 0; i < n; i++ {
-		next, ok := vhNLRI(b[:21+wl], pos, pfxs[i], lens[i])
-		vr.Assert(ok, "withdrawn route does not decode to the intended prefix")
-		pos = next
-	}
-	vr.Assert(pos == 21+wl, "withdrawn routes do not fill their block")
-	vr.Assert(vhU16(b[pos:pos+2]) == 0, "withdraw carries path attributes")
-	vr.Assert(w.writes == 1, "message not written in one piece")
+	vhCheckWithdraw(w, pfxs, lens)
 	vr.Reach("withdraw decoded")
 }
 
